@@ -39,12 +39,13 @@ def inputs(case):
     shape = tuple(case['shape'])
     rs = np.random.RandomState(case['data_seed'])
     kind = case.get('image', 'uint8')
+    full = shape + ((case['channels'],) if case.get('channels') else ())
     if kind == 'float':
-        img = rs.rand(*shape).astype(np.float32)
+        img = rs.rand(*full).astype(np.float32)
     elif kind == 'int16':
-        img = rs.randint(-500, 1500, shape).astype(np.int16)
+        img = rs.randint(-500, 1500, full).astype(np.int16)
     else:
-        img = rs.randint(0, 255, shape).astype(np.uint8)
+        img = rs.randint(0, 255, full).astype(np.uint8)
     H, W, D = shape
     data = dict(image=img, mask=rs.randint(0, 4, shape).astype(np.uint8),
                 masks=[rs.randint(0, 4, shape).astype(np.uint8)], dicom=copy.deepcopy(DICOM))
